@@ -66,6 +66,15 @@ impl<'a> Ctx<'a> {
             // (strings that are suffixes of one another; an integer whose last encoded byte equals an opcode)
             2 => c(CardBody::StringLiteral(self.rng.pick(&["", "a", "key", "value", "héllo", "keyvalue", "lue", "é"]).to_string())),
             3 if self.rng.chance(1, 6) => int(*self.rng.pick(&[0x1B00_0000_0000_0000i64, 0x0100_0000_0000_001Bi64, 0x2E00_0000_0000_0000i64])),
+            // an integer or real literal whose LAST encoded byte (the most significant one) equals an
+            // arbitrary opcode, e.g. Return: a peephole that looks at the last byte must not take an
+            // operand for an instruction
+            4 if self.rng.chance(1, 4) => {
+                // (integers only: reals of that magnitude do not survive serde_json's default float
+                // parser bit for bit, which is a third-party matter the ser engine would report)
+                let op = self.rng.range(1, 0x30);
+                int((op << 56) | self.rng.range(0, 1000))
+            }
             _ => int(*self.rng.pick(&[0, 1, 2, 3, 5, 7, -1, 10, 42])),
         }
     }
